@@ -37,7 +37,7 @@ pub const JJ_OPS: &[&str] = &[
     "assign", "add", "double", "negate", "msm", "msm_bounded", "mul_by_constant", "from_coordinates", "is_equal", "select",
     "assert_equal", "assert_not_equal", "is_zero",
 ];
-pub const FC_OPS: &[&str] = &["assign", "add", "double", "negate", "from_coordinates", "is_equal", "select", "mul_by_constant", "msm", "msm_bounded"];
+pub const FC_OPS: &[&str] = &["assign", "add", "double", "negate", "from_coordinates", "is_equal", "select", "mul_by_constant", "msm", "msm_bounded", "assert_equal", "assert_not_equal", "is_zero"];
 
 pub fn jj_ops() -> Vec<String> {
     JJ_OPS.iter().map(|o| format!("ec.jj.{o}")).collect()
@@ -396,6 +396,19 @@ where
             publish(s, l, &[b.into()])?;
             None
         }
+        "is_zero" => {
+            let b = chip.is_zero(l, &pts[0])?;
+            publish(s, l, &[b.into()])?;
+            None
+        }
+        "assert_equal" => {
+            chip.assert_equal(l, &pts[0], &pts[1])?;
+            None
+        }
+        "assert_not_equal" => {
+            chip.assert_not_equal(l, &pts[0], &pts[1])?;
+            None
+        }
         "from_coordinates" => {
             let cls = c.p[0];
             let xy = wb[0].clone().map(|k| {
@@ -668,6 +681,12 @@ pub fn check(c: &OpCase, publics: &[Fq]) -> Result<bool, String> {
             Some(b) if b == (pts[0] == pts[1]) => Ok(true),
             other => Err(format!("output bit {other:?} differs from {}", pts[0] == pts[1])),
         },
+        "is_zero" => match bitv(go.first().ok_or("missing output bit")?) {
+            Some(b) if b == pts[0].is_none() => Ok(true),
+            other => Err(format!("output bit {other:?} differs from {}", pts[0].is_none())),
+        },
+        "assert_equal" => Ok(pts[0] == pts[1]),
+        "assert_not_equal" => Ok(pts[0] != pts[1]),
         o => Err(format!("unknown foreign ecc op {o}")),
     }
 }
